@@ -69,7 +69,7 @@ def translate():
     key = hash_files(repo_sources() + sorted(glob.glob(os.path.join(VERIF, "tools", "*.py"))))
     stamp = os.path.join(BUILD, "translate", "stamp")
     gen_ok = all(os.path.exists(os.path.join(COQ, "Gen", f)) for f in
-                 ("Consts.v", "Layout.v", "Arith.v", "Tables.v", "Macros.v", "Rtap.v", "Globals.v"))
+                 ("Consts.v", "Layout.v", "Arith.v", "Tables.v", "Macros.v", "Rtap.v", "Globals.v", "Sites.v"))
     if gen_ok and os.path.exists(stamp) and open(stamp).read() == key:
         try:
             return json.load(open(os.path.join(BUILD, "translate", "translate.json")))
